@@ -308,7 +308,10 @@ fn with_inserted(built: &[Layer], k: usize, l: Layer) -> Vec<Layer> {
 fn run_laws(c: &Case, laws: Laws) -> Result<(), Failure> {
     let page = c.font_page as usize;
     let n = c.layers.len();
-    let built: Vec<Layer> = c.layers.iter().map(|m| build_layer(m, page)).collect();
+    // hidden layers carry ANOTHER default font page than the visible ones: nothing of a hidden layer may reach the picture,
+    // not even the page it would give to cells that fall through all visible layers
+    let hidden_page = if page == 2 { 1 } else { 2 };
+    let built: Vec<Layer> = c.layers.iter().map(|m| build_layer(m, if m.visible { page } else { hidden_page })).collect();
     let mut buf = Buffer::new((80, 25));
     buf.is_terminal_buffer = c.terminal;
     let win = window(c);
@@ -317,7 +320,7 @@ fn run_laws(c: &Case, laws: Laws) -> Result<(), Failure> {
 
     if laws.main {
         // ---- L1: hidden layers never influence the picture
-        let hidden_extra = build_layer(&LayerM { visible: false, ..c.extra.clone() }, page);
+        let hidden_extra = build_layer(&LayerM { visible: false, ..c.extra.clone() }, hidden_page);
         for k in 0..=n {
             let got = snap(&mut buf, with_inserted(&built, k, hidden_extra.clone()), win, (0, 0));
             if let Some(d) = first_diff(&base, &got, win, everywhere) {
@@ -681,7 +684,7 @@ fn main() {
     eng.rule(
         "stacks: generated stacks of 1..=5 layers (bottom to top), each 1..=12 x 1..=8 at offsets -4..=6, mode Normal/Chars/Attributes, alpha or not, visible (85%) or hidden, \
          optional fill cell plus 0..=14 sparse cells (plain cells, transparent-colour half-block cells, canonical and non-canonical invisible cells, font pages 0..2), rows optionally \
-         compacted, 20% of the layers shrunk with Layer::set_size after drawing (visible cells stay in the storage outside the rectangle), 30% with non-default role / lock flags / title / colour tag (no stacking attributes); the same default_font_page (0/1/3) on every layer, no overlay layer, terminal-buffer flag in 20% (font page 0). Auxiliary inputs: `extra` (hidden layer for L1, \
+         compacted, 20% of the layers shrunk with Layer::set_size after drawing (visible cells stay in the storage outside the rectangle), 30% with non-default role / lock flags / title / colour tag (no stacking attributes); the same default_font_page (0/1/3) on every visible layer and another one (2, or 1) on every hidden layer, no overlay layer, terminal-buffer flag in 20% (font page 0). Auxiliary inputs: `extra` (hidden layer for L1, \
          geometry of the empty alpha layer for L3), `alt` (0..=3 layers replacing everything beneath an opaque layer, L4), translation d in -6..=6 squared (L5, L6). All six laws are \
          evaluated on every case at every position of the bounding box of all layers involved plus a 2-cell border (insertion laws at every index, per-layer laws for every layer). \
          tiny_exhaustive: all 96^3 stacks of three 1x1 layers on one position (3 modes x alpha x visible x 8 cell kinds each) through the same six laws. \
